@@ -64,6 +64,7 @@ def env1(ctx):
             return e0["lit"]
         h = hirq.path_hid(e0)
         return lit_lets.get(h)
+    all_lets = {n["pat"]["hid"]: n["init"] for n in hirq.walk(root) if n["e"] == "let" and n["pat"].get("p") == "bind" and n.get("init") is not None and "hid" in n["pat"]}
     seen = {}
     for pat, it, body, ln in for_loops(root):
         base = expr_name(it)
@@ -111,6 +112,10 @@ def env1(ctx):
         check(hirq.path_hid(mb["args"][1]) in D_rev, "before-half is matched on the reversed word", "before-word",
               "match_before_env is given `%s` instead of the reversed word" % (expr_name(mb["args"][1])[-1],))
         p0 = hirq.strip(mb["args"][2])
+        hops = 0
+        while p0.get("e") == "path" and p0.get("hid") in all_lets and hops < 4:
+            p0 = hirq.strip(all_lets[p0["hid"]])
+            hops += 1
         okp = p0.get("e") == "mcall" and p0["name"] == "reversed" and hirq.path_hid(p0["recv"]) in D_start and p0["args"] and hirq.path_hid(p0["args"][0]) in D_word_only
         check(bool(okp), "before-half starts at start_pos.reversed(word)", "before-pos", "match_before_env does not start at `%s.reversed(%s)`" % (start_p, word_p))
         check(opb == "Or" and sb in emb, "an empty before-half is vacuous", "before-empty", "the before-half is not skipped when empty")
@@ -124,8 +129,21 @@ def env1(ctx):
         vb, va = bool_of(mb["args"][ib]), bool_of(ma["args"][ia])
         check(vb is is_ctx and va is is_ctx, "is_context = %s in both calls" % is_ctx, "is_context", "is_context is (%s, %s); %s need %s" % (vb, va, label, is_ctx))
         flag = [expr_name(n["lhs"])[-1] for n in hirq.walk(iff["then"]) if n["e"] == "assign" and hirq.strip(n["rhs"]).get("lit") is True]
+        rets = []
+        for n in hirq.walk(iff["then"]):
+            if n["e"] == "ret" and n.get("a") is not None and not n.get("inl"):
+                a_ = hirq.strip(n["a"])
+                if a_.get("e") == "call" and (hirq.strip(a_["f"]).get("path") or "").endswith("Result::Ok"):
+                    rets.append(hirq.strip(a_["args"][0]).get("lit"))
         seen[label + "_flag"] = flag[0] if len(flag) == 1 else None
-        check(len(flag) == 1, "a match sets one flag (%s)" % flag, "flag", "a matching %s does not set exactly one flag" % label[:-1])
+        seen[label + "_ret"] = rets[0] if len(rets) == 1 and not flag else None
+        seen[label + "_ln"] = ln
+        if is_ctx:
+            check(len(flag) == 1 and not rets, "a match sets one flag (%s)" % flag, "flag", "a matching context does not set exactly one flag")
+        else:
+            # a matching exception sets a flag, or refuses at once
+            check((len(flag) == 1 and not rets) or (not flag and rets == [False]), "a matching exception sets one flag (%s) or returns Ok(false) at once" % flag, "flag",
+                  "a matching exception neither sets exactly one flag nor returns Ok(false)")
     if "contexts" not in seen or "exceptions" not in seen:
         raise AnchorMissing("match_contexts_and_exceptions: loops over contexts and exceptions not both found")
     # verdict
@@ -141,12 +159,20 @@ def env1(ctx):
         neg = [x for x in (l, rr) if x.get("e") == "unary" and x.get("op") == "Not"]
         posv = [x for x in (l, rr) if x.get("e") == "path"]
         ok = len(neg) == 1 and len(posv) == 1 and expr_name(neg[0]["a"])[-1] == seen.get("exceptions_flag") and expr_name(posv[0])[-1] == seen.get("contexts_flag")
+    if not ok and seen.get("exceptions_ret") is False:
+        # exceptions refuse at once: what is left is `Ok(<context matched>)`
+        for n in hirq.walk(root):
+            if n["e"] == "call" and (hirq.strip(n["f"]).get("path") or "").endswith("Result::Ok") and not n.get("exp"):
+                a = hirq.strip(n["args"][0])
+                if a.get("e") == "path" and expr_name(a)[-1] == seen.get("contexts_flag") and n.get("ln", 0) > max(seen.get("exceptions_ln", 0), seen.get("contexts_ln", 0)):
+                    ok = True
     r.inst("verdict is `!<exception matched> && <context matched>`", fn_loc(b), "ok" if ok else "report")
     if not ok:
         r.report("ENV-1|verdict", fn_loc(b), b.path, "the verdict is not `!%s && %s`" % (seen.get("exceptions_flag"), seen.get("contexts_flag")))
     inits = {n["pat"]["name"]: n["init"] for n in hirq.walk(root) if n["e"] == "let" and n["pat"].get("p") == "bind" and n.get("init") is not None}
     ic, ie = hirq.strip(inits.get(seen.get("contexts_flag"), {})), hirq.strip(inits.get(seen.get("exceptions_flag"), {}))
-    ok = ic.get("e") == "mcall" and ic.get("name") == "is_empty" and src.get(expr_name(ic["recv"])[-1]) == "get_contexts" and ie.get("lit") is False
+    ok = ic.get("e") == "mcall" and ic.get("name") == "is_empty" and src.get(expr_name(ic["recv"])[-1]) == "get_contexts" and (
+        ie.get("lit") is False or seen.get("exceptions_ret") is False)
     r.inst("without contexts the context counts as matched; the exception flag starts false", fn_loc(b), "ok" if ok else "report")
     if not ok:
         r.report("ENV-1|initial", fn_loc(b), b.path, "initial values: the context flag must start as `contexts.is_empty()` and the exception flag as false")
@@ -233,4 +259,34 @@ def env3(ctx):
         r.inst("the two differ in exactly one polarity atom (the direction flag)", fn_loc(b), "ok" if ok else "report")
         if not ok:
             r.report("ENV-3|polarity", fn_loc(b), b.path, "besides the direction flag the two loops differ in %d boolean literals / comparisons" % (len(diff) - 1))
+    return r
+
+
+def env4(ctx):
+    """alphas are bound by the context before the exception is judged"""
+    r = RuleResult("ENV-4", "contexts are matched before exceptions, so an alpha first bound in the context carries its value into the exception", floor=1)
+    lib = ctx.lib
+    b = ctx.fn(lib, SUB + "match_contexts_and_exceptions")
+    root = hirq.inline_helpers(lib, b, keep={SUB + "match_before_env", SUB + "match_after_env", SUB + "get_contexts", SUB + "get_exceptions"})
+    src = {}
+    for n in hirq.walk(root):
+        if n["e"] == "let" and n.get("init") is not None and n["pat"].get("p") == "bind":
+            i0 = hirq.strip(n["init"])
+            if i0.get("e") == "mcall" and i0["name"] in ("get_contexts", "get_exceptions"):
+                src[n["pat"]["name"]] = i0["name"]
+    order = []
+    for pat, it, body, ln in for_loops(root):
+        base = expr_name(it)
+        kind = src.get(base[-1]) if base[0] == "local" else None
+        if kind and any(m["e"] == "mcall" and m["name"] in ("match_before_env", "match_after_env") for m in hirq.walk(body)):
+            order.append((ln, kind))
+    order.sort()
+    kinds = [k for _, k in order]
+    if set(kinds) != {"get_contexts", "get_exceptions"}:
+        raise AnchorMissing("match_contexts_and_exceptions: loops over contexts and exceptions not both found (%s)" % kinds)
+    ok = kinds.index("get_contexts") < kinds.index("get_exceptions")
+    r.inst("the loop over the contexts comes before the loop over the exceptions", fn_loc(b, order[0][0]), "ok" if ok else "report")
+    if not ok:
+        r.report("ENV-4|order", fn_loc(b, order[0][0]), b.path,
+                 "exceptions are matched before contexts: an alpha that the context should bind is still unbound when the exception is judged, binds to the exception's own segment and matches trivially")
     return r
